@@ -16,29 +16,57 @@ def flagsStr (f : Flags) : String := s!"{bs f.isSync} {bs f.recalc} {bs f.alloca
 
 def primsStr (ps : List Prim) : String := ",".intercalate (ps.map Prim.toString)
 
-/-- run the op list through the flag machine, one output segment per op -/
-def runOps (c : Config) : Flags → List (Op Unit) → List String → String
-  | _, [], acc => ";".intercalate acc.reverse
-  | f, o :: os, acc =>
-    match apiOps c f o with
-    | .error e => ";".intercalate (("error " ++ e) :: acc).reverse
-    | .ok (ps, f') => runOps c f' os ((primsStr ps ++ "@" ++ flagsStr f') :: acc)
+/-- one op token = one group of plan items; `i:n:k:exact:reverse:syncFirst` is an integrate call -/
+def groupOf (tok : String) : Option (List DtOp) :=
+  match opOf tok with
+  | some o => some [.api o]
+  | none =>
+    match tok.splitOn ":" with
+    | ["i", n, k, e, r, x] =>
+      match n.toNat?, k.toNat? with
+      | some n, some k => some (integratePlan n k (b01 e) (b01 r) (b01 x))
+      | _, _ => none
+    | _ => none
 
-def runSaba (c : SabaConfig) : Flags → List (Op Unit) → List String → String
+/-- run one group through a flag machine: prims (as strings) with the dt markers in between -/
+def runGroup {F : Type} (api : F → Op Unit → Except String (List String × F)) :
+    F → List DtOp → List String → Except String (List String × F)
+  | f, [], acc => .ok (acc.reverse, f)
+  | f, .api o :: r, acc =>
+    match api f o with
+    | .error e => .error e
+    | .ok (ps, f') =>
+      let tail := match o with | .step => ["stepEnd"] | _ => []
+      runGroup api f' r ((ps ++ tail).reverse ++ acc)
+  | f, .begin :: r, acc => runGroup api f r ("intBegin" :: acc)
+  | f, .flipDt :: r, acc => runGroup api f r ("flipDt" :: acc)
+  | f, .setDtLast :: r, acc => runGroup api f r ("setDtLast" :: acc)
+  | f, .restoreDt :: r, acc => runGroup api f r ("restoreDt" :: acc)
+
+def runGroups {F : Type} (api : F → Op Unit → Except String (List String × F)) (fs : F → String) :
+    F → List (List DtOp) → List String → String
   | _, [], acc => ";".intercalate acc.reverse
-  | f, o :: os, acc =>
-    match sabaApiOps c f o with
+  | f, g :: gs, acc =>
+    match runGroup api f g [] with
     | .error e => ";".intercalate (("error " ++ e) :: acc).reverse
-    | .ok (ps, f') => runSaba c f' os ((primsStr ps ++ "@" ++ flagsStr f') :: acc)
+    | .ok (ps, f') => runGroups api fs f' gs ((",".intercalate ps ++ "@" ++ fs f') :: acc)
+
+def whApi (c : Config) (f : Flags) (o : Op Unit) : Except String (List String × Flags) :=
+  match apiOps c f o with
+  | .error e => .error e
+  | .ok (ps, f') => .ok (ps.map Prim.toString, f')
+
+def sabaApi (c : SabaConfig) (f : Flags) (o : Op Unit) : Except String (List String × Flags) :=
+  match sabaApiOps c f o with
+  | .error e => .error e
+  | .ok (ps, f') => .ok (ps.map Prim.toString, f')
 
 def mflagsStr (f : MFlags) : String :=
   s!"{bs f.isSync} {bs f.recalc} {bs f.recalcR} {bs f.allocD} {bs f.allocT}"
 
-def runMerc (safe : Bool) : MFlags → List (Op Unit) → List String → String
-  | _, [], acc => ";".intercalate acc.reverse
-  | f, o :: os, acc =>
-    let (ps, f') := mOpOps safe f o
-    runMerc safe f' os ((",".intercalate (ps.map MPrim.toString) ++ "@" ++ mflagsStr f') :: acc)
+def mercApi (safe : Bool) (f : MFlags) (o : Op Unit) : Except String (List String × MFlags) :=
+  let (ps, f') := mOpOps safe f o
+  .ok (ps.map MPrim.toString, f')
 
 /-- the footprint table of the model (`transfer`) as a dependency matrix: row = output
     component, column = input component, `1` = may depend.  rv/c09.py tests it on the real
@@ -66,18 +94,18 @@ def footStr : String :=
 def step (toks : List String) : String :=
   match toks with
   | "W" :: co :: ke :: cr :: c2 :: sa :: kp :: fx :: isy :: rc :: al :: ops =>
-    match coordOf co, ke.toNat?, cr.toNat?, ops.mapM opOf with
+    match coordOf co, ke.toNat?, cr.toNat?, ops.mapM groupOf with
     | some co, some ke, some cr, some ops =>
-      runOps ⟨co, ke, cr, b01 c2, b01 sa, b01 kp, b01 fx⟩ ⟨b01 isy, b01 rc, b01 al⟩ ops []
+      runGroups (whApi ⟨co, ke, cr, b01 c2, b01 sa, b01 kp, b01 fx⟩) flagsStr ⟨b01 isy, b01 rc, b01 al⟩ ops []
     | _, _, _, _ => "bad-op"
   | "S" :: ty :: sa :: kp :: isy :: rc :: al :: ops =>
-    match ty.toNat?, ops.mapM opOf with
-    | some ty, some ops => runSaba ⟨ty, b01 sa, b01 kp⟩ ⟨b01 isy, b01 rc, b01 al⟩ ops []
+    match ty.toNat?, ops.mapM groupOf with
+    | some ty, some ops => runGroups (sabaApi ⟨ty, b01 sa, b01 kp⟩) flagsStr ⟨b01 isy, b01 rc, b01 al⟩ ops []
     | _, _ => "bad-op"
   | ["FOOT"] => footStr
   | "M" :: sa :: isy :: rc :: rr :: ad :: atm :: ops =>
-    match ops.mapM opOf with
-    | some ops => runMerc (b01 sa) ⟨b01 isy, b01 rc, b01 rr, b01 ad, b01 atm⟩ ops []
+    match ops.mapM groupOf with
+    | some ops => runGroups (mercApi (b01 sa)) mflagsStr ⟨b01 isy, b01 rc, b01 rr, b01 ad, b01 atm⟩ ops []
     | none => "bad-op"
   | _ => "bad-op"
 
